@@ -65,6 +65,55 @@ MUST_OBSERVE = ["pushes_monitored", "deliveries_monitored"]
 # --------------------------------------------------------------------------
 # running one scenario under the probes
 
+CASE_WALL_BUDGET_S = 4.0
+
+
+class _WallBudgetExceeded(BaseException):
+    """BaseException so that `except Exception` inside the library cannot swallow it."""
+
+
+class _WallBudget:
+    """Nested SIGALRM budget: the worker's own per-case watchdog (also ITIMER_REAL) is restored on exit."""
+
+    def __init__(self, seconds: float):
+        self.seconds = seconds
+        self.prev_handler = None
+        self.prev_left = 0.0
+        self.t0 = 0.0
+        self.active = False
+
+    def __enter__(self):
+        import signal
+        import threading
+        import time
+
+        if threading.current_thread() is not threading.main_thread():
+            return self
+        self.t0 = time.monotonic()
+        self.prev_left, _ = signal.getitimer(signal.ITIMER_REAL)
+        if self.prev_left and self.prev_left <= self.seconds:
+            return self  # the outer watchdog fires first anyway
+
+        def fire(signum, frame):
+            raise _WallBudgetExceeded()
+
+        self.prev_handler = signal.signal(signal.SIGALRM, fire)
+        signal.setitimer(signal.ITIMER_REAL, self.seconds)
+        self.active = True
+        return self
+
+    def __exit__(self, *exc):
+        if self.active:
+            import signal
+            import time
+
+            signal.setitimer(signal.ITIMER_REAL, 0)
+            signal.signal(signal.SIGALRM, self.prev_handler or signal.SIG_DFL)
+            if self.prev_left:
+                left = max(0.05, self.prev_left - (time.monotonic() - self.t0))
+                signal.setitimer(signal.ITIMER_REAL, left)
+        return False
+
 _COV = None
 
 
@@ -120,9 +169,14 @@ def run_scenario(
     probe = C07Probe(log_deliveries=False, instant_cap=cap, total_cap=TOTAL_CAP)
 
     lib_exc = None
-    with probe:
+    with probe, _WallBudget(CASE_WALL_BUDGET_S) as wb:
         try:
             status = probe.run(sc.sim)
+        except _WallBudgetExceeded:
+            # CPU-bound work inside single deliveries (a 1 ns slide over a 0.3 s window ...): no verdict
+            res.inconclusive = f"wall budget {CASE_WALL_BUDGET_S}s exceeded in {name} (mutations: {applied})"[:300]
+            res.count("wall_budget_exceeded")
+            return res
         except Exception as exc:  # noqa: BLE001
             # An exception raised by library code on legitimate API use is a defect, but not C07's
             # subject (the statement is about timestamps and frozen clocks): it is recorded as an
@@ -484,12 +538,13 @@ FAMILIES = _families()
 _L1 = [f for f in FAMILIES if f not in ("zz_catalogue_coverage", "repo_suite")]
 
 
-def _budget(per_builder: int) -> dict[str, int]:
+def _budget(per_builder: int, floor: int) -> dict[str, int]:
     from hsverif.scenarios import names
 
-    b = {f: max(6, per_builder * len(names(f))) for f in _L1}
-    b["zz_catalogue_coverage"] = 1
+    # the coverage case runs every builder once (about 15 s on one core): first in the dict = submitted first
+    b = {"zz_catalogue_coverage": 1}
+    b.update({f: max(floor, per_builder * len(names(f))) for f in _L1})
     return b
 
 
-BUDGET = {"quick": _budget(3), "thorough": {**_budget(30), "repo_suite": 1}}
+BUDGET = {"quick": _budget(2, 4), "thorough": {**_budget(30, 30), "repo_suite": 1}}
